@@ -115,7 +115,7 @@ Qed.
 
 (* ---------- D21: before the repair (levels not sorted) a clean scale-in lost flushed state ---------- *)
 Definition kA1 : bytes := [0;0;1].  Definition kA2 : bytes := [0;0;2].
-Definition kB1 : bytes := [0;1;1].  Definition kB2 : bytes := [0;1;2].
+Definition kB1 : bytes := [0;1;1;0].  Definition kB2 : bytes := [0;1;2;0].
 Definition docA : ckdoc := mkD [[]; [mkT 1 kA1 kA2 2 [mkE kA1 1 false 11; mkE kA2 2 false 12]]] [[]].
 Definition docB : ckdoc := mkD [[]; [mkT 2 kB1 kB2 2 [mkE kB1 1 false 21; mkE kB2 2 false 22]]] [[]].
 (* two operators, two key groups, acknowledgements recorded [op1, op0], restart with one operator *)
@@ -138,7 +138,9 @@ Proof. vm_compute. split; reflexivity. Qed.
 
 (* ---------- D22: the full statement is false of the repaired code (class recompacted_shared_table) ---------- *)
 (* after a scale-out 1 -> 2 both operators held table 1 = {kA1, kA2, kB1}; operator 1 (key group 1) re-compacted it
-   together with its new write kB2 into table 2, operator 0 kept table 1.  Scale-in 2 -> 1, acknowledgements [op1, op0]. *)
+   together with its new write kB2 into table 2, operator 0 kept table 1.  Scale-in 2 -> 1, acknowledgements [op1, op0]:
+   the level is [table 2; table 1] (equal start keys), the binary search for prefix [0;1;2] probes table 1 (ends
+   before the prefix), moves right and finds nothing: kB2 is lost although its old owner had it. *)
 Definition docB' : ckdoc := mkD [[]; [mkT 2 kA1 kB2 4 [mkE kA1 1 false 11; mkE kA2 2 false 12; mkE kB1 3 false 21; mkE kB2 4 false 22]]] [[]].
 Definition docA' : ckdoc := mkD [[]; [mkT 1 kA1 kB1 3 [mkE kA1 1 false 11; mkE kA2 2 false 12; mkE kB1 3 false 21]]] [[]].
 Definition d22_recorded : list (kgrange * ckdoc) := [((1, 2), docB'); ((0, 1), docA')].
@@ -168,9 +170,9 @@ Lemma rescale_exact_refuted_lemma :
     (* the witness lies in the class of the known finding, and outside the clean inputs *)
     class_witness count n recorded i = true /\ forallb doc_clean recorded = false.
 Proof.
-  - exists 2, 1, d22_recorded, 0%nat, [0;1]. split; [apply perm_swap|]. split; [|split; vm_compute; reflexivity].
+  - exists 2, 1, d22_recorded, 0%nat, [0;1;2]. split; [apply perm_swap|]. split; [|split; vm_compute; reflexivity].
     intros H. specialize (H 0%nat (1, 2) docB' eq_refl).
-    assert (Hk : forall r, (r = (1, 2) \/ r = (0, 2)) -> forall k, is_prefix [0;1] k = true -> key_in r k = true).
+    assert (Hk : forall r, (r = (1, 2) \/ r = (0, 2)) -> forall k, is_prefix [0;1;2] k = true -> key_in r k = true).
     { intros r Hr k Hp. destruct k as [|b0 k]; [discriminate Hp|]. destruct k as [|b1 k].
       - cbn [is_prefix] in Hp. rewrite andb_false_r in Hp. discriminate Hp.
       - cbn [is_prefix] in Hp. apply andb_true_iff in Hp. destruct Hp as [E0 Hp]. apply andb_true_iff in Hp. destruct Hp as [E1 _].
